@@ -14,8 +14,6 @@ type comparison =
 
 val compOpp : comparison -> comparison
 
-val pred : nat -> nat
-
 val add : nat -> nat -> nat
 
 val eqb : bool -> bool -> bool
@@ -195,10 +193,10 @@ type cpc =
 
 type tmst =
 | TmNone
-| TmArmed of z
-| TmCanc of z
-| TmFired of z
-| TmHold of z
+| TmArmed
+| TmCanc
+| TmFired
+| TmHold
 | TmDone
 
 type hold =
@@ -220,10 +218,11 @@ type st = { pstate : bool; slot : bool; wk : bool; tmo : z; hnd : nat option;
             para : perr option; running : bool; rq : nat; up : upc;
             ud : z option; kp : kpc; kdur : z option; kdl : z option;
             un : (nat -> npc); cn : (nat -> cpc); tm : (nat -> tmst);
-            ntm : nat; now : z; nested : bool; dropping : bool; oldk : 
-            nat; holder : hold; tcall : z; tok0 : bool; ctok : bool;
-            wsrc : wake; nclr : nat; lastv : verdict option; tainted : 
-            bool; susp : bool }
+            tdl : (nat -> z); ntm : nat; now : z; nested : bool;
+            dropping : bool; oldk : nat; holder : hold; tcall : z;
+            tok0 : bool; ctok : bool; wsrc : wake; nclr : nat;
+            lastv : verdict option; tainted : bool; susp : bool; ncall : 
+            nat }
 
 val set_pstate : bool -> st -> st
 
@@ -265,6 +264,8 @@ val set_cn : (nat -> cpc) -> st -> st
 
 val set_tm : (nat -> tmst) -> st -> st
 
+val set_tdl : (nat -> z) -> st -> st
+
 val set_ntm : nat -> st -> st
 
 val set_now : z -> st -> st
@@ -292,6 +293,8 @@ val set_lastv : verdict option -> st -> st
 val set_tainted : bool -> st -> st
 
 val set_susp : bool -> st -> st
+
+val set_ncall : nat -> st -> st
 
 val upd : (nat -> 'a1) -> nat -> 'a1 -> nat -> 'a1
 
@@ -453,7 +456,7 @@ val cco_some : cslot -> bool
 
 val hnd_some : nat option -> bool
 
-val min_entry : (nat -> tmst) -> nat -> (nat * z) option
+val min_entry : (nat -> tmst) -> (nat -> z) -> nat -> (nat * z) option
 
 val verdict_code : verdict option -> z
 
